@@ -31,9 +31,10 @@ pub enum Defect {
     BareDirective,
     TruncatedStatement,
     DataListStray,
+    LabelAsOperand,
 }
 
-pub const DEFECTS: [Defect; 18] = [
+pub const DEFECTS: [Defect; 19] = [
     Defect::WrongOperandType,
     Defect::MissingLastOperand,
     Defect::ExtraOperand,
@@ -52,6 +53,7 @@ pub const DEFECTS: [Defect; 18] = [
     Defect::BareDirective,
     Defect::TruncatedStatement,
     Defect::DataListStray,
+    Defect::LabelAsOperand,
 ];
 
 impl Defect {
@@ -75,6 +77,7 @@ impl Defect {
             Defect::BareDirective => "directive-without-operands",
             Defect::TruncatedStatement => "statement-cut-after-a-token",
             Defect::DataListStray => "stray-token-in-a-data-list",
+            Defect::LabelAsOperand => "label-definition-as-operand",
         }
     }
     /// Does the malformed line certainly contain something that is no token of the language (so that
@@ -137,6 +140,7 @@ impl Defect {
                 }
                 format!("{indent}{t}")
             }
+            Defect::LabelAsOperand => format!("{indent}addi t0, t1, oops:"),
             Defect::DataListStray => {
                 let dir = *rng.pick(&[".word", ".byte", ".half"]);
                 let tail = *rng.pick(&["@", "$", "\u{e9}", "\"open", "'a", "1 @ 2", "@ 3", "% 4"]);
@@ -194,7 +198,7 @@ pub fn run(ctx: &Ctx) -> i32 {
     let mut rep = Report::new(
         ctx,
         "files of one statement per line (generated programs incl. data sections, with or without a header comment / final newline); one line is replaced by a malformed one \
-         (18 defect kinds: wrong / missing / extra operand, unknown mnemonic or directive, stray + ; @ $ :, non-ASCII letter, lone CR, unterminated string or char, text after a closing quote, a directive without operands, a statement cut after any token, a stray token in a data list) at the first, a middle or \
+         (19 defect kinds: wrong / missing / extra operand, unknown mnemonic or directive, stray + ; @ $ :, non-ASCII letter, lone CR, unterminated string or char, text after a closing quote, a directive without operands, a statement cut after any token, a stray token in a data list, a label definition in operand position) at the first, a middle or \
          the last line, or two consecutive lines; also whole-file CR/LF endings and a final line truncated after each token with and without newline. Oracle: (coverage) every non-blank, non-comment line has a node starting on it \
          (or inside a multi-line data list) or a parse error located on it; (containment) all other lines yield exactly the nodes they yield when the bad line is blank, and no errors. \
          distinct_nontrivial = distinct mutated files judged",
